@@ -309,6 +309,192 @@ theorem fold_noninterference (Q : Bytes → Bool) (p p' : PassIn) (pre post : Li
     simp [this]
   exact (foldl_rel Q p p' post _ _ r2 hp hd hd' (Or.inl (by rw [hYlen]; omega)) (fun nd hnd => hl nd (by simp [hnd]))).1
 
-#print axioms fold_noninterference
+
+/-- the same for `daemonPass`, the hypotheses being stated on the worlds `w0`, `w0'` the client phase of the pass
+    (`cli_post_poll`) leaves -/
+theorem pass_noninterference (Q : Bytes → Bool) (w w' : W) (p p' : PassIn) (w0 w0' : W)
+    (pre post : List (Bytes × Dev)) (B B' : Bytes × Dev) (g : Nat) (xp xB xB' xq : List Pm.Dev2.RxCall)
+    (hw0 : cliPostPoll w p.acc p.envs = w0) (hw0' : cliPostPoll w' p'.acc p'.envs = w0')
+    (hex : w0.exited = false) (hex' : w0'.exited = false)
+    (hdevs : w0.devs = pre ++ B :: post) (hdevs' : w0'.devs = pre ++ B' :: post)
+    (hp : SameClock p p')
+    (hcli : cliRec w0 g = cliRec w0' g) (hgok : GOk Q w0 g) (hst : SAgree Q w0.store w0'.store)
+    (hn1 : w0.nsock = w0'.nsock) (hn2 : w0.npair = w0'.npair) (hn3 : w0.nfork = w0'.nfork)
+    (hx : w0.pendingX = xp ++ (xB ++ xq)) (hx' : w0'.pendingX = xp ++ (xB' ++ xq))
+    (hl : ∀ nd ∈ pre ++ post, SameEvents p p' nd ∧ QOn Q nd.2 ∧ ActsOK Q nd.2.acts)
+    (hg : g ≠ 0) (hq : ∀ x ∈ B.2.acts, x.clientId ≠ g) (hq' : ∀ x ∈ B'.2.acts, x.clientId ≠ g)
+    (hQ : QOff Q B.2) (hQ' : QOff Q B'.2)
+    (hd : ((pre ++ B :: post).foldl (devPass p) (acc0 w0)).dead = false)
+    (hd' : ((pre ++ B' :: post).foldl (devPass p') (acc0 w0')).dead = false)
+    (E1 : ExactOn p (acc0 w0) pre xp) (E1' : ExactOn p' (acc0 w0') pre xp)
+    (E2 : ExactOn p (pre.foldl (devPass p) (acc0 w0)) [B] xB) (E2' : ExactOn p' (pre.foldl (devPass p') (acc0 w0')) [B'] xB')
+    (hc1 : (devPass p (pre.foldl (devPass p) (acc0 w0)) B).w.nsock = (devPass p' (pre.foldl (devPass p') (acc0 w0')) B').w.nsock)
+    (hc2 : (devPass p (pre.foldl (devPass p) (acc0 w0)) B).w.npair = (devPass p' (pre.foldl (devPass p') (acc0 w0')) B').w.npair)
+    (hc3 : (devPass p (pre.foldl (devPass p) (acc0 w0)) B).w.nfork = (devPass p' (pre.foldl (devPass p') (acc0 w0')) B').w.nfork) :
+    cliRec (daemonPass w p).1 g = cliRec (daemonPass w' p').1 g ∧
+    (∀ i, i ≠ pre.length → ((daemonPass w p).1.devs[i]?).map strip = ((daemonPass w' p').1.devs[i]?).map strip) ∧
+    SAgree Q (daemonPass w p).1.store (daemonPass w' p').1.store := by
+  have hr := fold_noninterference Q p p' pre post B B' (acc0 w0) (acc0 w0') g xp xB xB' xq hp
+    ⟨hcli, hgok, hst, rfl, fun _ _ => rfl⟩ rfl hn1 hn2 hn3 hx hx' hl hg hq hq' hQ hQ' hd hd' E1 E1' E2 E2' hc1 hc2 hc3
+  rw [daemonPass_fst, daemonPass_fst]
+  dsimp only
+  rw [hw0, hw0']
+  simp only [hex, hex', Bool.false_eq_true, ↓reduceIte]
+  rw [hdevs, hdevs']
+  exact ⟨hr.cli, hr.devs, hr.store⟩
+
+/-! ### the poll timeout is the minimum of the devices' wake-up times: no device can postpone another's wake-up -/
+
+/-- the optional timeout `x` is set and at most `t` -/
+def leOpt (x : Option Nat) (t : Nat) : Prop := ∃ t', x = some t' ∧ t' ≤ t
+
+theorem leOpt_minOpt_right (x : Option Nat) (t : Nat) : leOpt (minOpt x (some t)) t := by
+  cases x with
+  | none => exact ⟨t, rfl, Nat.le_refl _⟩
+  | some y => exact ⟨min y t, rfl, Nat.min_le_right _ _⟩
+
+theorem leOpt_minOpt_left (x y : Option Nat) (t : Nat) (h : leOpt x t) : leOpt (minOpt x y) t := by
+  obtain ⟨t', rfl, ht⟩ := h
+  cases y with
+  | none => exact ⟨t', rfl, ht⟩
+  | some z => exact ⟨min t' z, rfl, Nat.le_trans (Nat.min_le_left _ _) ht⟩
+
+theorem devPass_tmo (p : PassIn) (a : DevAcc) (nd : Bytes × Dev) :
+    (devPass p a nd).tmo = if a.dead then a.tmo else minOpt a.tmo (stepOut p a nd).2.2 := by
+  cases hd : a.dead with
+  | true => rw [devPass_dead _ _ _ hd]; rfl
+  | false => rw [devPass_eq]; unfold devPass'; simp only [hd, Bool.false_eq_true, ↓reduceIte]; rfl
+
+theorem devPass_tmo_keeps (p : PassIn) (a : DevAcc) (nd : Bytes × Dev) (t : Nat) (h : leOpt a.tmo t) : leOpt (devPass p a nd).tmo t := by
+  rw [devPass_tmo]
+  split
+  · exact h
+  · exact leOpt_minOpt_left _ _ _ h
+
+theorem foldl_tmo_keeps (p : PassIn) (l : List (Bytes × Dev)) (a : DevAcc) (t : Nat) (h : leOpt a.tmo t) :
+    leOpt (l.foldl (devPass p) a).tmo t := by
+  induction l generalizing a with
+  | nil => exact h
+  | cons x r ih => exact ih _ (devPass_tmo_keeps p a x t h)
+
+/-- whatever wake-up time a device registers in its turn, the timeout the pass ends with is set and not later -/
+theorem foldl_tmo_le (p : PassIn) (l : List (Bytes × Dev)) (a : DevAcc) (i : Nat) (nd : Bytes × Dev) (t : Nat)
+    (hi : l[i]? = some nd) (hd : (accAt p a l i).dead = false) (ht : (stepOut p (accAt p a l i) nd).2.2 = some t) :
+    leOpt (l.foldl (devPass p) a).tmo t := by
+  induction l generalizing a i with
+  | nil => simp at hi
+  | cons x r ih =>
+    rw [List.foldl_cons]
+    cases i with
+    | zero =>
+      simp at hi; subst hi
+      simp only [accAt_zero] at hd ht
+      apply foldl_tmo_keeps
+      rw [devPass_tmo, hd, ht]
+      exact leOpt_minOpt_right _ _
+    | succ i =>
+      simp at hi
+      rw [accAt_succ_cons] at hd ht
+      exact ih _ i hi hd ht
+
+/-! ### the healthy devices fire the same callbacks and register the same wake-up time in both runs -/
+
+theorem accAt_ext (p : PassIn) (l : List (Bytes × Dev)) (a : DevAcc) (r : List Pm.Dev2.RxCall) (i : Nat)
+    (h : ∀ k nd, l[k]? = some nd → (accAt p a l k).dead = false → NoMis (stepOut p (accAt p a l k) nd).2.1) :
+    accAt p (withOr a (Pm.Dev2.ext a.oracle r)) l i = withOr (accAt p a l i) (Pm.Dev2.ext (accAt p a l i).oracle r) := by
+  induction l generalizing a i with
+  | nil => simp [accAt]
+  | cons x t ih =>
+    cases i with
+    | zero => simp
+    | succ i =>
+      rw [accAt_succ_cons, accAt_succ_cons, devPass_ext p a x r (by simpa using h 0 x rfl)]
+      exact ih _ i (fun k nd hk => by have := h (k + 1) nd (by simpa using hk); rwa [accAt_succ_cons] at this)
+
+theorem stepOut_ext (p : PassIn) (a : DevAcc) (nd : Bytes × Dev) (r : List Pm.Dev2.RxCall) (h : NoMis (stepOut p a nd).2.1) :
+    stepOut p (withOr a (Pm.Dev2.ext a.oracle r)) nd = (Pm.Dev2.ext (stepOut p a nd).1 r, (stepOut p a nd).2) := by
+  have hx := Pm.Dev2.postPoll_ext { nd.2 with args := a.w.store } (devEnv p a.w nd) a.oracle r h
+  unfold stepOut
+  have e : devStep p (withOr a (Pm.Dev2.ext a.oracle r)).w (withOr a (Pm.Dev2.ext a.oracle r)).oracle nd
+      = Pm.Dev2.PA.ext (devStep p a.w a.oracle nd) r := hx
+  rw [e]
+  rfl
+
+/-- under the hypotheses of `fold_noninterference`: every device before `B` fires the same callbacks and registers the
+    same timeout in both runs, and every device after `B` moreover leaves the same oracle remainder -/
+theorem fold_noninterference_steps (Q : Bytes → Bool) (p p' : PassIn) (pre post : List (Bytes × Dev)) (B B' : Bytes × Dev)
+    (a0 a0' : DevAcc) (g : Nat) (xp xB xB' xq : List Pm.Dev2.RxCall)
+    (hp : SameClock p p')
+    (hcore : AccCore Q g pre.length a0 a0') (hdv : a0.devs = [])
+    (hn1 : a0.w.nsock = a0'.w.nsock) (hn2 : a0.w.npair = a0'.w.npair) (hn3 : a0.w.nfork = a0'.w.nfork)
+    (hx : a0.oracle.calls = xp ++ (xB ++ xq)) (hx' : a0'.oracle.calls = xp ++ (xB' ++ xq))
+    (hl : ∀ nd ∈ pre ++ post, SameEvents p p' nd ∧ QOn Q nd.2 ∧ ActsOK Q nd.2.acts)
+    (hg : g ≠ 0) (hq : ∀ x ∈ B.2.acts, x.clientId ≠ g) (hq' : ∀ x ∈ B'.2.acts, x.clientId ≠ g)
+    (hQ : QOff Q B.2) (hQ' : QOff Q B'.2)
+    (hd : ((pre ++ B :: post).foldl (devPass p) a0).dead = false)
+    (hd' : ((pre ++ B' :: post).foldl (devPass p') a0').dead = false)
+    (E1 : ExactOn p a0 pre xp) (E1' : ExactOn p' a0' pre xp)
+    (E2 : ExactOn p (pre.foldl (devPass p) a0) [B] xB) (E2' : ExactOn p' (pre.foldl (devPass p') a0') [B'] xB')
+    (hc1 : (devPass p (pre.foldl (devPass p) a0) B).w.nsock = (devPass p' (pre.foldl (devPass p') a0') B').w.nsock)
+    (hc2 : (devPass p (pre.foldl (devPass p) a0) B).w.npair = (devPass p' (pre.foldl (devPass p') a0') B').w.npair)
+    (hc3 : (devPass p (pre.foldl (devPass p) a0) B).w.nfork = (devPass p' (pre.foldl (devPass p') a0') B').w.nfork) :
+    (∀ i nd, pre[i]? = some nd → (stepOut p (accAt p a0 pre i) nd).2 = (stepOut p' (accAt p' a0' pre i) nd).2) ∧
+    (∀ i nd, post[i]? = some nd →
+      stepOut p (accAt p (devPass p (pre.foldl (devPass p) a0) B) post i) nd =
+      stepOut p' (accAt p' (devPass p' (pre.foldl (devPass p') a0') B') post i) nd) := by
+  rw [List.foldl_append, List.foldl_cons] at hd hd'
+  have e1 := foldl_exact p pre a0 xp (xB ++ xq) hx E1
+  have e1' := foldl_exact p' pre a0' xp (xB' ++ xq) hx' E1'
+  have hdB := alive_of_foldl p post _ hd
+  have hdB' := alive_of_foldl p' post _ hd'
+  have hdX : (pre.foldl (devPass p) a0).dead = false := by
+    cases h : (pre.foldl (devPass p) a0).dead with
+    | false => rfl
+    | true => rw [devPass_dead_sticky p _ B h] at hdB; exact absurd hdB (by simp)
+  have hdX' : (pre.foldl (devPass p') a0').dead = false := by
+    cases h : (pre.foldl (devPass p') a0').dead with
+    | false => rfl
+    | true => rw [devPass_dead_sticky p' _ B' h] at hdB'; exact absurd hdB' (by simp)
+  have r0 : AccRel Q g pre.length (withOr a0 ⟨xp⟩) (withOr a0' ⟨xp⟩) :=
+    { toAccCore := hcore.withOr _ _, nsock := hn1, npair := hn2, nfork := hn3, oracle := rfl }
+  have hlen0 : (withOr a0 ⟨xp⟩).devs.length = 0 := by show a0.devs.length = 0; rw [hdv]; rfl
+  have rel1 := foldl_rel Q p p' pre _ _ r0 hp (by rw [e1] at hdX; exact hdX) (by rw [e1'] at hdX'; exact hdX')
+    (Or.inr (by rw [hlen0]; omega)) (fun nd hnd => hl nd (by simp [hnd]))
+  constructor
+  · intro i nd hi
+    have s1 := withOr_split a0 xp (xB ++ xq) hx
+    have s1' := withOr_split a0' xp (xB' ++ xq) hx'
+    have a1 := accAt_ext p pre (withOr a0 ⟨xp⟩) (xB ++ xq) i (fun k x hk _ => E1.1 k x hk)
+    have a1' := accAt_ext p' pre (withOr a0' ⟨xp⟩) (xB' ++ xq) i (fun k x hk _ => E1'.1 k x hk)
+    rw [← s1] at a1
+    rw [← s1'] at a1'
+    rw [a1, a1', stepOut_ext p _ nd _ (E1.1 i nd hi), stepOut_ext p' _ nd _ (E1'.1 i nd hi)]
+    show (stepOut p (accAt p (withOr a0 ⟨xp⟩) pre i) nd).2 = (stepOut p' (accAt p' (withOr a0' ⟨xp⟩) pre i) nd).2
+    rw [rel1.2 i nd hi]
+  · -- the accumulators after B are related as in `fold_noninterference`
+    have r1 := rel1.1
+    generalize hX : pre.foldl (devPass p) (withOr a0 ⟨xp⟩) = X at *
+    generalize hX' : pre.foldl (devPass p') (withOr a0' ⟨xp⟩) = X' at *
+    rw [e1] at E2 hc1 hc2 hc3 hd ⊢
+    rw [e1'] at E2' hc1 hc2 hc3 hd' ⊢
+    have hXlen : X.devs.length = pre.length := by
+      rw [← hX, foldl_devs_length, hlen0]; omega
+    have e2 : devPass p (withOr X ⟨xB ++ xq⟩) B = withOr (devPass p (withOr X ⟨xB⟩) B) ⟨xq⟩ := by
+      have := foldl_exact p [B] (withOr X ⟨xB ++ xq⟩) xB xq rfl E2
+      simpa using this
+    have e2' : devPass p' (withOr X' ⟨xB' ++ xq⟩) B' = withOr (devPass p' (withOr X' ⟨xB'⟩) B') ⟨xq⟩ := by
+      have := foldl_exact p' [B'] (withOr X' ⟨xB' ++ xq⟩) xB' xq rfl E2'
+      simpa using this
+    have r2 : AccRel Q g pre.length (devPass p (withOr X ⟨xB ++ xq⟩) B) (devPass p' (withOr X' ⟨xB' ++ xq⟩) B') :=
+      { toAccCore := (devPass_relB Q p p' (withOr X ⟨xB ++ xq⟩) (withOr X' ⟨xB' ++ xq⟩) B B'
+          (r1.toAccCore.withOr ⟨xB ++ xq⟩ ⟨xB' ++ xq⟩) hXlen hg hq hq' hQ hQ' hc1 hc2 hc3
+          (by rw [e2, e2']; rfl)).toAccCore,
+        nsock := hc1, npair := hc2, nfork := hc3, oracle := by rw [e2, e2']; rfl }
+    have hYlen : (devPass p (withOr X ⟨xB ++ xq⟩) B).devs.length = pre.length + 1 := by
+      rw [devPass_devs_eq]
+      have : (withOr X ⟨xB ++ xq⟩).devs.length = pre.length := hXlen
+      simp [this]
+    exact (foldl_rel Q p p' post _ _ r2 hp hd hd' (Or.inl (by rw [hYlen]; omega)) (fun nd hnd => hl nd (by simp [hnd]))).2
+
 
 end Pm.Daemon
